@@ -206,6 +206,7 @@ func runC20(r *Run) {
 	r.Bound("jobs", len(jobs))
 	r.ParFor(len(jobs), func(i int) {
 		c := jobs[i]
+		r.Note(i, c.Path+" | "+c.Doc+" | "+c.Entry)
 		_, bpc, _ := c20Run(c, -1)
 		n := bpc.polls.Load()
 		for k := int64(0); k <= n; k++ {
